@@ -253,6 +253,9 @@ func (r mutantResult) verdict() string {
 	case !r.Applies && r.Err == "":
 		return "skipped"
 	case r.Expect == "silent":
+		if r.Detected && r.KnownGap != "" {
+			return "known-gap" // documented false alarm (DESIGN.md section 15)
+		}
 		if r.Detected {
 			return "FALSE-ALARM"
 		}
